@@ -21,6 +21,55 @@ type slotObj struct {
 	nilrecv bool
 	hasTemp bool
 	hasEnv  bool
+	steps   []stateStep // state-changing operations after the first decode
+}
+
+// stateStep is a re-decode or a field assignment applied to an object; the
+// history oracles replay them on a twin.
+type stateStep struct {
+	redec bool
+	vec   string
+	field fieldRef
+	val   int64
+}
+
+// current returns the object a slot stands for when it is used as a receiver
+// or assigned to: the receiver of its decodes, or (nil-receiver decode) the result.
+func (s *slotObj) current() any {
+	if !isNilObj(s.recv) {
+		return s.recv
+	}
+	return s.res
+}
+
+func (s *slotObj) applyStep(st stateStep) string {
+	cur := s.current()
+	if isNilObj(cur) {
+		return "skip"
+	}
+	if st.redec {
+		res, err := decodeWith(cur, st.vec)
+		s.recv = cur
+		s.res, s.err = res, err
+		s.origin += "|redec=" + strconv.Quote(st.vec)
+		return "redec:" + errClass(err) + " same-object=" + strconv.FormatBool(isNilObj(res) || res == cur) + " " + snapshot(cur)
+	}
+	fv, ok := fieldValue(cur, st.field)
+	if !ok || !fv.CanSet() {
+		return "skip"
+	}
+	fv.SetInt(st.val)
+	s.origin += "|set=" + st.field.name + "=" + strconv.FormatInt(st.val, 10)
+	return "set:" + st.field.name + "=" + strconv.FormatInt(st.val, 10)
+}
+
+// rebuild replays the slot's state history on fresh objects, without any query.
+func (s *slotObj) rebuild() *slotObj {
+	t := doDecode(s.kind, s.nilrecv, s.vec)
+	for _, st := range s.steps {
+		t.applyStep(st)
+	}
+	return t
 }
 
 type slotRep struct {
@@ -245,6 +294,51 @@ func (c *taskCtx) execOp(op *Op) string {
 			return renderExport(rd, err)
 		case "lkp":
 			return doLookup(op.Fn, op.SArg, op.IArg, op.Lang)
+		case "redec":
+			sl := c.slot(op.Obj)
+			if sl == nil || (op.Obj != nil && op.Obj.Shared) {
+				return "skip"
+			}
+			st := stateStep{redec: true, vec: op.Vec}
+			r := sl.applyStep(st)
+			if r != "skip" {
+				sl.steps = append(sl.steps, st)
+			}
+			return r
+		case "set":
+			sl := c.slot(op.Obj)
+			if sl == nil || (op.Obj != nil && op.Obj.Shared) {
+				return "skip"
+			}
+			cur := sl.current()
+			if isNilObj(cur) {
+				return "skip"
+			}
+			fs := fieldsOf(cur)
+			if len(fs) == 0 {
+				return "skip"
+			}
+			f := fs[op.IArg%len(fs)]
+			var val int64
+			have := false
+			if d := c.slot(op.Donor); d != nil && d.kind == sl.kind && !isNilObj(d.current()) {
+				if dv, ok := fieldValue(d.current(), f); ok {
+					val, have = dv.Int(), true
+				}
+			}
+			if !have {
+				inv, ok := invalidValueOf(f.typ)
+				if !ok {
+					return "skip"
+				}
+				val = inv.Int()
+			}
+			st := stateStep{field: f, val: val}
+			r := sl.applyStep(st)
+			if r != "skip" {
+				sl.steps = append(sl.steps, st)
+			}
+			return r
 		}
 		return "skip"
 	})
@@ -281,6 +375,12 @@ func (c *taskCtx) opKey(op *Op) (string, bool) {
 		return "exp|" + strconv.Quote(op.Tmpl) + f + "|" + r.origin, true
 	case "lkp":
 		return fmt.Sprintf("lkp|%d|%s|%d|%d", op.Fn, strconv.Quote(op.SArg), op.IArg, op.Lang), true
+	case "redec":
+		sl := c.slot(op.Obj)
+		if sl == nil || isNilObj(sl.current()) {
+			return "", false
+		}
+		return "redec|" + strconv.Quote(op.Vec) + "|" + sl.origin, true
 	}
 	return "", false
 }
